@@ -146,4 +146,59 @@ theorem C08_expression_keeps_loop_flag (fuel prec : Nat) (s s' : PS) (r : Option
     (h : P.parseExpression fuel prec s = .ok (r, s')) : s'.inFor = s.inFor :=
   (P.allFor fuel).expr s prec r s' h
 
+/-! ### The whole loop, for any number of elements -/
+
+/-- a run of a loop: element by element, front to back; each body evaluation starts in the state the previous one
+    left; a normal result is appended, `continue` appends what the iteration had produced and goes on, `break`
+    appends what it had produced and ENDS the run (`visited` counts the elements whose body was evaluated) -/
+inductive LoopRun (key val : Bytes) (block : Block) :
+    Nat → List (Val × Val) → List Val → ES → List Val → ES → Nat → Prop
+  | done (f : Nat) (ret : List Val) (s : ES) : LoopRun key val block (f + 1) [] ret s ret s 0
+  | step (f : Nat) (k v : Val) (rest : List (Val × Val)) (ret out : List Val) (s s1 s2 : ES) (res : Val) (n : Nat)
+      (hb : (do iterStart key val k v; evalBlock f block) s = (.ok res, s1))
+      (hc : ∀ vs, res ≠ .cont vs) (hk : ∀ vs, res ≠ .brk vs)
+      (hr : LoopRun key val block f rest (ret ++ [res]) s1 out s2 n) :
+      LoopRun key val block (f + 1) ((k, v) :: rest) ret s out s2 (n + 1)
+  | cont (f : Nat) (k v : Val) (rest : List (Val × Val)) (ret out vs : List Val) (s s1 s2 : ES) (n : Nat)
+      (hb : (do iterStart key val k v; evalBlock f block) s = (.ok (.cont vs), s1))
+      (hr : LoopRun key val block f rest (ret ++ [.ilist vs]) s1 out s2 n) :
+      LoopRun key val block (f + 1) ((k, v) :: rest) ret s out s2 (n + 1)
+  | brk (f : Nat) (k v : Val) (rest : List (Val × Val)) (ret vs : List Val) (s s1 : ES)
+      (hb : (do iterStart key val k v; evalBlock f block) s = (.ok (.brk vs), s1)) :
+      LoopRun key val block (f + 1) ((k, v) :: rest) ret s (ret ++ [.ilist vs]) s1 1
+
+/-- THE WHOLE LOOP, for any number of elements: if the iterations go as a `LoopRun` describes, `forItems` returns
+    exactly the accumulated per-iteration results, in order — one per element whose body was evaluated, no element
+    visited twice, none skipped before a `break`, none visited after it -/
+theorem C08_loop_is_its_run {key val : Bytes} {block : Block} {f : Nat} {items : List (Val × Val)}
+    {ret out : List Val} {s s2 : ES} {n : Nat} (h : LoopRun key val block f items ret s out s2 n) :
+    forItems f key val block items ret s = (.ok (.ilist out), s2) ∧ n ≤ items.length ∧
+      ∃ results, out = ret ++ results ∧ results.length = n := by
+  induction h with
+  | done f ret s => exact ⟨C08_done f key val block ret s, by simp, [], by simp⟩
+  | step f k v rest ret out s s1 s2 res n hb hc hk _ ih =>
+    obtain ⟨h1, h2, rs, h3, h4⟩ := ih
+    refine ⟨?_, by simp; omega, res :: rs, ?_, by simp [h4]⟩
+    · rw [C08_step_normal f key val block k v rest ret s s1 res hb hc hk]; exact h1
+    · rw [h3]; simp
+  | cont f k v rest ret out vs s s1 s2 n hb _ ih =>
+    obtain ⟨h1, h2, rs, h3, h4⟩ := ih
+    refine ⟨?_, by simp; omega, .ilist vs :: rs, ?_, by simp [h4]⟩
+    · rw [C08_step_continue f key val block k v rest ret vs s s1 hb]; exact h1
+    · rw [h3]; simp
+  | brk f k v rest ret vs s s1 hb =>
+    exact ⟨C08_step_break f key val block k v rest ret vs s s1 hb, by simp, [.ilist vs], rfl, rfl⟩
+
+/-- non-vacuity: a two-element loop with an empty body is such a run (two iterations, two results) -/
+example (tk : Token) (s : ES) :
+    let s1 : ES := { s with store := (s.store.set s.cur [107] (.int 0)).set s.cur [118] (.int 7) }
+    let s2 : ES := { s1 with store := (s1.store.set s1.cur [107] (.int 1)).set s1.cur [118] (.int 8) }
+    LoopRun [107] [118] (Block.mk tk []) 4 [(.int 0, .int 7), (.int 1, .int 8)] [] s [.ilist [], .ilist []] s2 2 := by
+  intro s1 s2
+  refine .step 3 (.int 0) (.int 7) _ [] _ s s1 s2 (.ilist []) 1 ?_ (by intro vs h; cases h) (by intro vs h; cases h)
+    (.step 2 (.int 1) (.int 8) _ _ _ s1 s2 s2 (.ilist []) 0 ?_ (by intro vs h; cases h) (by intro vs h; cases h) (.done 1 _ _))
+  · simp [iterStart, bind, ctxSet, modifyS, evalBlock, evalStmts, pure, s1]
+  · simp [iterStart, bind, ctxSet, modifyS, evalBlock, evalStmts, pure, s1, s2]
+
+
 end Plush
